@@ -13,6 +13,7 @@ inductive Eff
   | bind (p : Str) (i : Id)
   | edge (o : Id) (a : Str) (m : Id)
   | obj (i : Id) (c : Str)
+  | use (p : Str)
   deriving DecidableEq
 
 def atomId (pm : Str → Option Id) : Atom → Option Id
@@ -25,6 +26,28 @@ def valId (pm : Str → Option Id) : Val → Option Id
   | .atom a => atomId pm a
   | .find _ _ => none
 
+def atomUse (F : Eff → Nat) : Atom → Nat
+  | .promise p => F (.use p)
+  | _ => 0
+
+def keysUse (F : Eff → Nat) : List (Str × Atom) → Nat
+  | [] => 0
+  | (_, a) :: t => atomUse F a + keysUse F t
+
+def valUse (F : Eff → Nat) : Val → Nat
+  | .atom a => atomUse F a
+  | .find _ keys => keysUse F keys
+
+def scalUse (F : Eff → Nat) : List (Str × Val) → Nat
+  | [] => 0
+  | (_, v) :: t => valUse F v + scalUse F t
+
+/-- the weight ignores uses of promises that are already bound -/
+def Quiet (F : Eff → Nat) (ps : Promises) : Prop := ∀ p i, ps.lookup p = some i → F (.use p) = 0
+
+/-- bindings are only ever added -/
+def Grows (ps ps' : Promises) : Prop := ∀ p i, ps.lookup p = some i → ps'.lookup p = some i
+
 def optEff (F : Eff → Nat) (pid : Option Str) (nid : Id) : Nat :=
   match pid with
   | none => 0
@@ -32,9 +55,10 @@ def optEff (F : Eff → Nat) (pid : Option Str) (nid : Id) : Nat :=
 
 mutual
 def Item.effN (dflt : List (Str × Str)) (pm : Str → Option Id) (F : Eff → Nat) (par : Id) (attr : Str) : Item → Nat
-  | .obj nid pid ty _ kids =>
-    F (.obj nid (classFor dflt attr ty)) + F (.edge par attr nid) + optEff F pid nid + kidsEffN dflt pm F nid kids
-  | .ref v => match valId pm v with
+  | .obj nid pid ty scal kids =>
+    F (.obj nid (classFor dflt attr ty)) + F (.edge par attr nid) + optEff F pid nid + scalUse F scal +
+      kidsEffN dflt pm F nid kids
+  | .ref v => valUse F v + match valId pm v with
     | some m => F (.edge par attr m)
     | none => 0
 def kidsEffN (dflt : List (Str × Str)) (pm : Str → Option Id) (F : Eff → Nat) (par : Id) : List (Str × List Item) → Nat
@@ -46,7 +70,8 @@ def itemsEffN (dflt : List (Str × Str)) (pm : Str → Option Id) (F : Eff → N
 end
 
 def Instr.effN (dflt : List (Str × Str)) (pm : Str → Option Id) (F : Eff → Nat) (i : Instr) : Nat :=
-  kidsEffN dflt pm F ((valId pm i.parent).getD 0) i.create + kidsEffN dflt pm F ((valId pm i.parent).getD 0) i.ext
+  valUse F i.parent + kidsEffN dflt pm F ((valId pm i.parent).getD 0) i.create +
+    kidsEffN dflt pm F ((valId pm i.parent).getD 0) i.ext
 
 def Action.effN (dflt : List (Str × Str)) (pm : Str → Option Id) (F : Eff → Nat) : Action → Nat
   | .whole i => i.effN dflt pm F
@@ -142,6 +167,54 @@ theorem resolveAtom_id {ps g pm a i} (hag : Agrees True ps pm) (h : resolveAtom 
   | obj j => simp [resolveAtom] at h; simp [atomId, h]
 
 
+theorem resolveAtom_quiet {F ps g a r} (hq : Quiet F ps) (h : resolveAtom ps g a = .ok r) : atomUse F a = 0 := by
+  cases a with
+  | promise p =>
+    simp only [resolveAtom] at h
+    split at h
+    · rename_i j hj; exact hq _ _ hj
+    · cases h
+  | str _ => rfl
+  | uuid _ => rfl
+  | obj _ => rfl
+
+theorem resolveKeys_quiet {F ps g} (hq : Quiet F ps) : ∀ {keys r}, resolveKeys ps g keys = .ok r → keysUse F keys = 0
+  | [], _, _ => rfl
+  | (k, a) :: t, r, h => by
+    simp only [resolveKeys, bind, Except.bind] at h
+    split at h
+    · cases h
+    · rename_i v hv
+      split at h
+      · cases h
+      · rename_i r' hr'
+        simp [keysUse, resolveAtom_quiet hq hv, resolveKeys_quiet hq hr']
+
+theorem resolveVal_quiet {F ps g v r} (hq : Quiet F ps) (h : resolveVal ps g v = .ok r) : valUse F v = 0 := by
+  cases v with
+  | atom a => exact resolveAtom_quiet hq h
+  | find ty keys =>
+    simp only [resolveVal, resolveFind, bind, Except.bind] at h
+    split at h
+    · cases h
+    · rename_i x hx
+      split at hx
+      · cases hx
+      · rename_i rk hrk
+        exact resolveKeys_quiet hq hrk
+
+theorem resolveScal_quiet {F ps g} (hq : Quiet F ps) : ∀ {scal r}, resolveScal ps g scal = .ok r → scalUse F scal = 0
+  | [], _, _ => rfl
+  | (k, v) :: t, r, h => by
+    simp only [resolveScal, bind, Except.bind] at h
+    split at h
+    · cases h
+    · rename_i v' hv
+      split at h
+      · cases h
+      · rename_i r' hr'
+        simp [scalUse, resolveVal_quiet hq hv, resolveScal_quiet hq hr']
+
 theorem lookup_append_single (ps : Promises) (p q : Str) (i : Id) :
     (ps ++ [(p, i)]).lookup q = match ps.lookup q with
       | some j => some j
@@ -155,14 +228,14 @@ theorem lookup_append_single (ps : Promises) (p q : Str) (i : Id) :
 
 theorem fulfil_ce {dflt st pm} {s s' : State} {p : Str} {i : Id} (hs : s.ce st pm) (hag : Agrees st s.ps pm)
     (hp : st → pm p = some i) (h : s.fulfil p i = .ok s') :
-    s'.ce st pm ∧ Agrees st s'.ps pm ∧ s'.agenda = s.agenda ∧ s'.g = s.g ∧
+    s'.ce st pm ∧ Agrees st s'.ps pm ∧ s'.agenda = s.agenda ∧ s'.g = s.g ∧ Grows s.ps s'.ps ∧
     ∀ F, s'.doneN F + s'.pendN dflt pm F = s.doneN F + s.pendN dflt pm F + F (.bind p i) := by
   unfold State.fulfil at h
   split at h
   · cases h
   · rename_i hnone
     cases h
-    refine ⟨⟨hs.1, ?_, ?_⟩, ?_, rfl, rfl, ?_⟩
+    refine ⟨⟨hs.1, ?_, ?_⟩, ?_, rfl, rfl, ?_, ?_⟩
     · intro a ha
       simp only [List.mem_append, List.mem_map, List.mem_filter] at ha
       rcases ha with ha | ⟨e, ⟨he, _⟩, rfl⟩
@@ -178,6 +251,8 @@ theorem fulfil_ce {dflt st pm} {s s' : State} {p : Str} {i : Id} (hs : s.ce st p
       · split at hq
         · rename_i hqp; cases hq; simp at hqp; subst hqp; exact hp hst
         · cases hq
+    · intro q j hq
+      simp [lookup_append_single, hq]
     · intro F
       have hm := sumBy_filter_split (fun e : Str × Action => e.2.effN dflt pm F) (fun e => e.1 == p) s.deferred
       simp only [State.doneN, State.pendN, sumBy_append, sumBy_map, sumBy] at *
@@ -197,32 +272,34 @@ theorem create_objs (g : Graph) (par attr nid cls sc) :
 /-- conservation needs `ps` to agree with `pm` only where list memberships are counted -/
 theorem stepItem_ce {dflt st pm s s' par attr} {x : Item} (hx : x.ce st pm) (hs : s.ce st pm)
     (hag : Agrees st s.ps pm) (h : stepItem dflt s par attr x = .ok s') :
-    s'.ce st pm ∧ Agrees st s'.ps pm ∧
-    ∀ F, (st ∨ EdgeBlind F) →
+    s'.ce st pm ∧ Agrees st s'.ps pm ∧ Grows s.ps s'.ps ∧
+    ∀ F, (st ∨ EdgeBlind F) → Quiet F s.ps →
       s'.doneN F + s'.pendN dflt pm F = s.doneN F + s.pendN dflt pm F + x.effN dflt pm F par attr := by
+  have hgrefl : Grows s.ps s.ps := fun _ _ h => h
   cases x with
   | ref v =>
     obtain ⟨a, rfl⟩ := hx
     simp only [stepItem] at h
     split at h
     · cases h
-      refine ⟨⟨hs.1, hs.2.1, ?_⟩, hag, ?_⟩
+      refine ⟨⟨hs.1, hs.2.1, ?_⟩, hag, hgrefl, ?_⟩
       · intro e he
         simp only [State.defer, List.mem_append, List.mem_singleton] at he
         rcases he with he | rfl
         · exact hs.2.2 e he
         · exact ⟨a, rfl⟩
-      · intro F _
+      · intro F _ _
         simp [State.defer, State.doneN, State.pendN, sumBy_append, sumBy, Action.effN]; omega
     · cases h
     · rename_i i hi
       cases h
-      refine ⟨hs, hag, ?_⟩
-      intro F hF
+      refine ⟨hs, hag, hgrefl, ?_⟩
+      intro F hF hq
+      have hu := resolveVal_quiet hq hi
       rcases hF with hst | heb
       · have := resolveAtom_id (fun _ => hag hst) (by simpa [resolveVal] using hi)
-        simp [State.doneN, State.pendN, Graph.append, sumBy_append, sumBy, Item.effN, valId, this]; omega
-      · simp only [State.doneN, State.pendN, Graph.append, sumBy_append, sumBy, Item.effN, heb _ _ _]
+        simp [State.doneN, State.pendN, Graph.append, sumBy_append, sumBy, Item.effN, valId, this, hu]; omega
+      · simp only [State.doneN, State.pendN, Graph.append, sumBy_append, sumBy, Item.effN, heb _ _ _, hu]
         split <;> omega
     · cases h
   | obj nid pid ty scal kids =>
@@ -230,13 +307,13 @@ theorem stepItem_ce {dflt st pm s s' par attr} {x : Item} (hx : x.ce st pm) (hs 
     simp only [stepItem] at h
     split at h
     · cases h
-      refine ⟨⟨hs.1, hs.2.1, ?_⟩, hag, ?_⟩
+      refine ⟨⟨hs.1, hs.2.1, ?_⟩, hag, hgrefl, ?_⟩
       · intro e he
         simp only [State.defer, List.mem_append, List.mem_singleton] at he
         rcases he with he | rfl
         · exact hs.2.2 e he
         · simpa [Action.ce, Item.ce] using hx
-      · intro F _
+      · intro F _ _
         simp [State.defer, State.doneN, State.pendN, sumBy_append, sumBy, Action.effN]; omega
     · cases h
     · rename_i rs hrs
@@ -245,14 +322,15 @@ theorem stepItem_ce {dflt st pm s s' par attr} {x : Item} (hx : x.ce st pm) (hs 
       | none =>
         simp [State.fulfilOpt, bind, Except.bind, pure, Except.pure] at h
         cases h
-        refine ⟨⟨?_, hs.2.1, hs.2.2⟩, hag, ?_⟩
+        refine ⟨⟨?_, hs.2.1, hs.2.2⟩, hag, hgrefl, ?_⟩
         · intro w hw
           simp only [List.mem_append] at hw
           rcases hw with hw | hw
           · exact kidsCe_works st pm nid kids hx.2 w hw
           · exact hs.1 w hw
-        · intro F _
-          simp [State.doneN, State.pendN, sumBy_append, sumBy, Item.effN, optEff, kidsEffN_eq, hc.1, hc.2]; omega
+        · intro F _ hq
+          have hu := resolveScal_quiet hq hrs
+          simp [State.doneN, State.pendN, sumBy_append, sumBy, Item.effN, optEff, kidsEffN_eq, hc.1, hc.2, hu]; omega
       | some p =>
         simp only [State.fulfilOpt, bind, Except.bind, pure, Except.pure] at h
         split at h
@@ -260,17 +338,18 @@ theorem stepItem_ce {dflt st pm s s' par attr} {x : Item} (hx : x.ce st pm) (hs 
         · rename_i s2 hs2
           cases h
           have hs1 : State.ce st pm { s with g := s.g.create par attr nid (classFor dflt attr ty) rs } := hs
-          obtain ⟨hce, hag2, hA, hG, hF⟩ := fulfil_ce (dflt := dflt) hs1 hag (fun h => hx.1 h p rfl) hs2
-          refine ⟨⟨?_, hce.2.1, hce.2.2⟩, hag2, ?_⟩
+          obtain ⟨hce, hag2, hA, hG, hgr, hF⟩ := fulfil_ce (dflt := dflt) hs1 hag (fun h => hx.1 h p rfl) hs2
+          refine ⟨⟨?_, hce.2.1, hce.2.2⟩, hag2, hgr, ?_⟩
           · intro w hw
             simp only [List.mem_append] at hw
             rcases hw with hw | hw
             · exact kidsCe_works st pm nid kids hx.2 w hw
             · exact hce.1 w hw
-          · intro F _
+          · intro F _ hq
+            have hu := resolveScal_quiet hq hrs
             have := hF F
             have hA' : s2.agenda = s.agenda := hA
-            simp [State.doneN, State.pendN, sumBy_append, sumBy, Item.effN, optEff, kidsEffN_eq, hc.1, hc.2, hA', hG] at *
+            simp [State.doneN, State.pendN, sumBy_append, sumBy, Item.effN, optEff, kidsEffN_eq, hc.1, hc.2, hA', hG, hu] at *
             omega
 
 /-- the invariant of create/extend runs: fragment, agreement with `pm`, done + pending = `c` -/
@@ -278,7 +357,7 @@ structure Inv (dflt : List (Str × Str)) (st : Prop) (pm : Str → Option Id) (c
     (s : State) : Prop where
   ce : s.ce st pm
   ag : Agrees st s.ps pm
-  cons : ∀ F, (st ∨ EdgeBlind F) → s.doneN F + s.pendN dflt pm F = c F
+  cons : ∀ F, (st ∨ EdgeBlind F) → Quiet F s.ps → s.doneN F + s.pendN dflt pm F = c F
 
 theorem worksOf_ce {st pm} (par : Id) (i : Instr) (h : i.ce st pm) : ∀ w ∈ worksOf par i, w.ce st pm := by
   obtain ⟨_, h1, h2, h3, h4, h5⟩ := h
@@ -312,9 +391,13 @@ theorem kidsEffN_blind {dflt pm F} (hF : EdgeBlind F) (par par' : Id) (kids : Li
   | nil => simp [kidsEffN]
   | cons x t ih => obtain ⟨k, l⟩ := x; simp [kidsEffN, ih, itemsEffN_blind hF par par' k l]
 
+theorem Quiet.mono {F ps ps'} (hg : Grows ps ps') (h : Quiet F ps') : Quiet F ps :=
+  fun p i hp => h p i (hg p i hp)
+
 theorem step_ce {dflt st pm c s s'} (hinv : Inv dflt st pm c s) (h : step dflt s = .ok (some s')) :
-    Inv dflt st pm c s' := by
+    Inv dflt st pm c s' ∧ Grows s.ps s'.ps := by
   obtain ⟨hce, hag, hcons⟩ := hinv
+  have hgrefl : Grows s.ps s.ps := fun _ _ h => h
   unfold step at h
   split at h
   · rename_i w rest hagd
@@ -330,9 +413,9 @@ theorem step_ce {dflt st pm c s s'} (hinv : Inv dflt st pm c s) (h : step dflt s
         cases l with
         | nil =>
           cases hw
-          refine ⟨⟨hrest, hce.2.1, hce.2.2⟩, hag, ?_⟩
-          intro F hF
-          have := hcons F hF
+          refine ⟨⟨⟨hrest, hce.2.1, hce.2.2⟩, hag, ?_⟩, hgrefl⟩
+          intro F hF hq
+          have := hcons F hF hq
           simp [State.doneN, State.pendN, hagd, sumBy, Work.effN, itemsEffN] at *
           omega
         | cons x l =>
@@ -344,20 +427,21 @@ theorem step_ce {dflt st pm c s s'} (hinv : Inv dflt st pm c s) (h : step dflt s
             rcases hw' with rfl | hw'
             · exact hwce.2
             · exact hrest w' hw'
-          obtain ⟨a, b, c'⟩ := stepItem_ce (dflt := dflt) hwce.1 hs1 hag hw
-          refine ⟨a, b, ?_⟩
-          intro F hF
-          have := hcons F hF
-          have := c' F hF
+          obtain ⟨a, b, hg, c'⟩ := stepItem_ce (dflt := dflt) hwce.1 hs1 hag hw
+          refine ⟨⟨a, b, ?_⟩, hg⟩
+          intro F hF hq
+          have hq0 : Quiet F s.ps := Quiet.mono hg hq
+          have := hcons F hF hq0
+          have := c' F hF hq0
           simp [State.doneN, State.pendN, hagd, sumBy, Work.effN, itemsEffN] at *
           omega
       | sets par l =>
         have : l = [] := hwce
         subst this
         cases hw
-        refine ⟨⟨hrest, hce.2.1, hce.2.2⟩, hag, ?_⟩
-        intro F hF
-        have := hcons F hF
+        refine ⟨⟨⟨hrest, hce.2.1, hce.2.2⟩, hag, ?_⟩, hgrefl⟩
+        intro F hF hq
+        have := hcons F hF hq
         simp [State.doneN, State.pendN, hagd, sumBy, Work.effN] at *
         omega
       | syncs _ _ _ => exact hwce.elim
@@ -382,44 +466,175 @@ theorem step_ce {dflt st pm c s s'} (hinv : Inv dflt st pm c s) (h : step dflt s
           simp only [startAction, hpar, resolveVal] at hw
           split at hw
           · cases hw
-            refine ⟨⟨hs1.1, hs1.2.1, ?_⟩, hag, ?_⟩
+            refine ⟨⟨⟨hs1.1, hs1.2.1, ?_⟩, hag, ?_⟩, hgrefl⟩
             · intro e he
               simp only [State.defer, List.mem_append, List.mem_singleton] at he
               rcases he with he | rfl
               · exact hce.2.2 e he
               · exact hace
-            · intro F hF
-              have := hcons F hF
+            · intro F hF hqt
+              have := hcons F hF hqt
               simp [State.defer, State.doneN, State.pendN, hq, sumBy_append, sumBy, Action.effN] at *
               omega
           · cases hw
           · cases hw
           · rename_i par hpar'
             cases hw
-            refine ⟨⟨worksOf_ce par i hace, hs1.2.1, hs1.2.2⟩, hag, ?_⟩
-            intro F hF
-            have := hcons F hF
+            refine ⟨⟨⟨worksOf_ce par i hace, hs1.2.1, hs1.2.2⟩, hag, ?_⟩, hgrefl⟩
+            intro F hF hqt
+            have := hcons F hF hqt
+            have hu : atomUse F at' = 0 := resolveAtom_quiet hqt hpar'
             have hwk := worksOf_effN dflt F par i hace
             rcases hF with hst | heb
             · have hid := resolveAtom_id (fun _ => hag hst) hpar'
-              simp [State.doneN, State.pendN, hq, hagd, sumBy, Action.effN, Instr.effN, hpar, valId, hid, hwk] at *
+              simp [State.doneN, State.pendN, hq, hagd, sumBy, Action.effN, Instr.effN, hpar, valId, valUse, hu, hid, hwk] at *
               omega
             · have e1 := kidsEffN_blind (dflt := dflt) (pm := pm) heb par ((valId pm (Val.atom at')).getD 0) i.create
               have e2 := kidsEffN_blind (dflt := dflt) (pm := pm) heb par ((valId pm (Val.atom at')).getD 0) i.ext
-              simp [State.doneN, State.pendN, hq, hagd, sumBy, Action.effN, Instr.effN, hpar, hwk, e1, e2] at *
+              simp [State.doneN, State.pendN, hq, hagd, sumBy, Action.effN, Instr.effN, hpar, valUse, hu, hwk, e1, e2] at *
               omega
         | piece par pc =>
           cases pc with
           | item attr x =>
-            obtain ⟨a, b, c'⟩ := stepItem_ce (dflt := dflt) hace hs1 hag hw
-            refine ⟨a, b, ?_⟩
-            intro F hF
-            have := hcons F hF
-            have := c' F hF
+            obtain ⟨a, b, hg, c'⟩ := stepItem_ce (dflt := dflt) hace hs1 hag hw
+            refine ⟨⟨a, b, ?_⟩, hg⟩
+            intro F hF hqt
+            have hq0 : Quiet F s.ps := Quiet.mono hg hqt
+            have := hcons F hF hq0
+            have := c' F hF hq0
             simp [State.doneN, State.pendN, hq, sumBy, Action.effN] at *
             omega
           | setE _ _ => exact hace.elim
           | sync _ _ => exact hace.elim
           | resync _ _ _ _ _ => exact hace.elim
+
+theorem step_none {dflt s} (h : step dflt s = .ok none) : s.agenda = [] ∧ s.queue = [] := by
+  unfold step at h
+  split at h
+  · simp only [Except.map] at h
+    split at h <;> simp at h
+  · rename_i ha
+    split at h
+    · rename_i hq; exact ⟨ha, hq⟩
+    · simp only [Except.map] at h
+      split at h <;> simp at h
+
+theorem run_ce {dflt st pm c} : ∀ (n : Nat) (s r : State), Inv dflt st pm c s → run dflt n s = some (.ok r) →
+    Inv dflt st pm c r ∧ r.agenda = [] ∧ r.queue = [] ∧ Grows s.ps r.ps
+  | 0, _, _, _, h => by simp [run] at h
+  | n + 1, s, r, hinv, h => by
+    unfold run at h
+    split at h
+    · simp at h
+    · rename_i hs
+      simp at h; subst h
+      exact ⟨hinv, (step_none hs).1, (step_none hs).2, fun _ _ h => h⟩
+    · rename_i s' hs
+      obtain ⟨hinv', hg⟩ := step_ce hinv hs
+      obtain ⟨a, b, c', d⟩ := run_ce n s' r hinv' h
+      exact ⟨a, b, c', fun p i hp => d p i (hg p i hp)⟩
+
+/-- weight of a result: bindings, list memberships, objects -/
+def resN (F : Eff → Nat) (g : Graph) (ps : Promises) : Nat :=
+  sumBy (fun e => F (.bind e.1 e.2)) ps + sumBy (fun e => F (.edge e.1 e.2.1 e.2.2)) g.edges +
+    sumBy (fun e => F (.obj e.1 e.2)) g.objs
+
+/-- weight of the effects a document describes -/
+def docN (dflt : List (Str × Str)) (pm : Str → Option Id) (F : Eff → Nat) (doc : List Instr) : Nat :=
+  sumBy (Instr.effN dflt pm F) doc
+
+/-- the documents of the create/extend fragment -/
+def DocCE (st : Prop) (pm : Str → Option Id) (doc : List Instr) : Prop := ∀ i ∈ doc, i.ce st pm
+
+theorem init_inv {dflt st pm} (g : Graph) (doc : List Instr) (hdoc : DocCE st pm doc) :
+    Inv dflt st pm (fun F => resN F g [] + docN dflt pm F doc) (init g doc) := by
+  refine ⟨⟨by simp [init], ?_, by simp [init]⟩, ?_, ?_⟩
+  · intro a ha
+    simp only [init, List.mem_map] at ha
+    obtain ⟨i, hi, rfl⟩ := ha
+    exact hdoc i hi
+  · intro _ p i h; simp [init] at h
+  · intro F _ _
+    simp [init, State.doneN, State.pendN, resN, docN, sumBy, sumBy_map, Action.effN]
+
+/-- **conservation**: what a successful run has done is exactly what the document describes -/
+theorem apply_ce {dflt st pm g doc g' ps'} (hdoc : DocCE st pm doc) (h : apply dflt g doc = .ok (g', ps')) :
+    ∀ F, (st ∨ EdgeBlind F) → Quiet F ps' → resN F g' ps' = resN F g [] + docN dflt pm F doc := by
+  unfold apply at h
+  split at h
+  · cases h
+  · rename_i r hr
+    cases r with
+    | error e => simp [Except.bind] at h
+    | ok sf =>
+      simp only [Except.bind] at h
+      obtain ⟨hinv, ha, hq, _⟩ := run_ce _ _ _ (init_inv (dflt := dflt) g doc hdoc) hr
+      unfold finish at h
+      split at h
+      · rename_i hd
+        cases h
+        intro F hF hqt
+        have := hinv.cons F hF hqt
+        simpa [State.doneN, State.pendN, ha, hq, hd, sumBy, resN] using this
+      · cases h
+
+
+
+theorem sumBy_perm {α : Type} (f : α → Nat) {l l' : List α} (h : l.Perm l') : sumBy f l = sumBy f l' := by
+  induction h with
+  | nil => rfl
+  | cons x _ ih => simp [sumBy, ih]
+  | swap x y l => simp [sumBy]; omega
+  | trans _ _ ih1 ih2 => exact ih1.trans ih2
+
+/-- indicator weight of one effect -/
+def ind (e : Eff) : Eff → Nat := fun e' => if e' = e then 1 else 0
+
+theorem sumBy_count {α : Type} [BEq α] [LawfulBEq α] (a : α) (l : List α) :
+    sumBy (fun x => if x == a then 1 else 0) l = l.count a := by
+  induction l with
+  | nil => simp [sumBy]
+  | cons x t ih =>
+    simp only [sumBy, ih, List.count_cons]
+    by_cases h : x == a <;> simp [h] <;> omega
+
+theorem sumBy_zero {α : Type} (l : List α) : sumBy (fun _ => 0) l = 0 := by
+  induction l with
+  | nil => rfl
+  | cons x t ih => simp [sumBy, ih]
+
+theorem resN_bind (g : Graph) (ps : Promises) (p : Str) (i : Id) :
+    resN (ind (.bind p i)) g ps = ps.count (p, i) := by
+  have h1 : (fun e : Str × Id => ind (.bind p i) (.bind e.1 e.2)) = fun e => if e == (p, i) then 1 else 0 := by
+    funext e; obtain ⟨a, b⟩ := e; simp [ind]
+  unfold resN
+  rw [h1, sumBy_count]
+  simp [ind, sumBy_zero]
+
+theorem resN_edge (g : Graph) (ps : Promises) (o : Id) (a : Str) (m : Id) :
+    resN (ind (.edge o a m)) g ps = g.edges.count (o, a, m) := by
+  have h1 : (fun e : Id × Str × Id => ind (.edge o a m) (.edge e.1 e.2.1 e.2.2)) = fun e => if e == (o, a, m) then 1 else 0 := by
+    funext e; obtain ⟨x, y, z⟩ := e; simp [ind]
+  unfold resN
+  rw [h1, sumBy_count]
+  simp [ind, sumBy_zero]
+
+theorem resN_obj (g : Graph) (ps : Promises) (i : Id) (c : Str) :
+    resN (ind (.obj i c)) g ps = g.objs.count (i, c) := by
+  have h1 : (fun e : Id × Str => ind (.obj i c) (.obj e.1 e.2)) = fun e => if e == (i, c) then 1 else 0 := by
+    funext e; obtain ⟨x, y⟩ := e; simp [ind]
+  unfold resN
+  rw [h1, sumBy_count]
+  simp [ind, sumBy_zero]
+
+theorem quiet_of_not_use {e : Eff} (ps : Promises) (h : ∀ p, e ≠ .use p) : Quiet (ind e) ps := by
+  intro p _ _
+  simp only [ind]
+  split
+  · rename_i he; exact absurd he.symm (h p)
+  · rfl
+
+theorem docN_perm {dflt pm F} {doc doc' : List Instr} (h : doc.Perm doc') :
+    docN dflt pm F doc = docN dflt pm F doc' := sumBy_perm _ h
 
 end Capella.Decl
